@@ -91,3 +91,12 @@ package hedgepolicy
 //@   ensures [C09.build.own_config+C16.hedge.build_own_listener] result != nil && typeis(result, *hedgePolicy) && tc != nil && tc != c && fresh(tc) && tc.maxHedges == c.maxHedges && tc.delayFunc == c.delayFunc && tc.onHedge == c.onHedge && tc.BaseAbortablePolicy == c.BaseAbortablePolicy
 //@   havoc
 //@   modifies *
+
+// One executor per execution: fresh, pointing back at itself (the template dispatches PreExecute / PostExecute through that
+// pointer) and at this policy.
+//@ func (*hedgePolicy).ToExecutor
+//@   builder
+//@   requires h != nil
+//@   let x := asref(result, *executor)
+//@   ensures [C01.toexecutor.fresh_self_referential+C09.toexecutor] typeis(result, *executor) && fresh(x) && x.hedgePolicy == h && x.BaseExecutor != nil && fresh(x.BaseExecutor) && typeis(x.Executor, *executor) && asref(x.Executor, *executor) == x
+//@   modifies nothing
